@@ -53,7 +53,7 @@ def rand_prop_value(rnd):
     if k == "b":
         return ("b", rnd.random() < 0.5)
     if k == "s":
-        return ("s", rnd.choice(["".join(rnd.choice("ab ü日\U0001F600'/") for _ in range(rnd.randint(0, 6))), "TDSm", "aTDSmb", "nul\x00", "\x00"]))
+        return ("s", rnd.choice(["".join(rnd.choice("ab ü日\U0001F600'/") for _ in range(rnd.randint(0, 6))), "TDSm", "aTDSmb", "nul\x00", "\x00", "\ufeff", "\ufeffbom first", "bom\ufeffinside"]))
     if k == "d":
         return ("d", rand_micros(rnd), rnd.choice(["datetime64", "datetime"]))
     if k == "t":
@@ -93,7 +93,7 @@ def pun(rnd, v):
 def rand_props(rnd, prev=None):
     """property list for one object in one segment; `prev` (dict, updated) remembers the values already written for that object:
     now and then an earlier property is rewritten with a value of another type but identical bytes (see `pun`)"""
-    names = rnd.sample(["p", "unit_string", "wf_increment", "名", "q q", "", "x" * 7], rnd.choice([0, 0, 1, 2, 3]))
+    names = rnd.sample(["p", "unit_string", "wf_increment", "名", "q q", "", "x" * 7, "\ufeffp", "\ufeff"], rnd.choice([0, 0, 1, 2, 3]))
     out = []
     for n in names:
         v = None
@@ -118,7 +118,7 @@ def rand_data(rnd):
     if k == "S":
         form = rnd.choice(["list", "object-array"])
         tail = ["", "", "", "\x00", "\x00\x00"] if form == "object-array" else [""]      # a list of str becomes a '<U' array, which cannot hold trailing NULs
-        return ("S", ["".join(rnd.choice("ab ü日\U0001F600") for _ in range(rnd.randint(0, 4))) + rnd.choice(tail) for _ in range(n)], form)
+        return ("S", [rnd.choice(["", "", "", "\ufeff"]) + "".join(rnd.choice("ab ü日\U0001F600") for _ in range(rnd.randint(0, 4))) + rnd.choice(tail) for _ in range(n)], form)
     if k == "D":
         return ("D", [rand_micros(rnd) for _ in range(n)], rnd.choice(["datetime64-array", "datetime-list"]))
     if k == "L":
